@@ -36,7 +36,7 @@ class Collector:
     """Accumulates verdicts inside one shard.  Never raises on a violation."""
 
     MAX_SAMPLES = 4
-    MAX_PER_BUCKET = 3
+    MAX_PER_BUCKET = int(os.environ.get("VERIF_MAX_PER_BUCKET", "3"))  # development: raise it to dump many cases per bucket
 
     def __init__(self):
         self.evaluations = 0
@@ -65,10 +65,20 @@ class Collector:
     def exclude(self, finding):
         self.excluded[finding] += 1
 
+    EARLY = None  # (module, known entries): set in the worker for modules whose region predicates are cheap structural scans
+
     def violation(self, bucket, detail, case, size=0):
         lst = self.violations.setdefault(bucket, [])
-        lst.append({"detail": str(detail)[:2000], "case": case, "size": size})
-        lst.sort(key=lambda v: v["size"])
+        v = {"detail": str(detail)[:2000], "case": case, "size": size}
+        if Collector.EARLY is not None:
+            # keep violations that no recorded finding covers ahead of attributed ones: a bucket that is mostly a known finding
+            # must not crowd out a different failure of the same kind
+            try:
+                v["known"] = _attribute(Collector.EARLY[0], Collector.EARLY[1], bucket, case)
+            except Exception:  # noqa: BLE001
+                v["known"] = None
+        lst.append(v)
+        lst.sort(key=lambda v: (v.get("known") is not None, v["size"]))
         del lst[self.MAX_PER_BUCKET:]
 
     def result(self):
@@ -102,6 +112,8 @@ def _worker(modname, spec):
     t0 = time.time()
     try:
         mod = importlib.import_module(modname)
+        if getattr(mod, "EARLY_ATTRIBUTION", False) and not os.environ.get("VERIF_NO_KNOWN"):
+            Collector.EARLY = (mod, load_known(mod.ID))
         res = mod.run_shard(spec)
         res["wall_s"] = time.time() - t0
         return res
@@ -226,6 +238,8 @@ def run_property(pid, tier, budget=1.0, jobs=0, use_known=True):
     seed = int(os.environ.get("VERIF_SEED", "1") or "1")
     mod = importlib.import_module(f"vf.props.{pid}")
     known = load_known(pid) if use_known else []
+    if not use_known:
+        os.environ["VERIF_NO_KNOWN"] = "1"
     lines, exit_code = [], 0
     new_violations = 0
 
@@ -308,7 +322,7 @@ def run_property(pid, tier, budget=1.0, jobs=0, use_known=True):
     attributed = Counter()
     reported = []
     for bucket in sorted(merged["violations"]):
-        lst = sorted(merged["violations"][bucket], key=lambda v: v["size"])
+        lst = sorted(merged["violations"][bucket], key=lambda v: (v.get("known") is not None, v["size"]))
         fresh = []
         cap = getattr(mod, "ATTRIBUTION_CAP", 6)  # region predicates may re-execute the case: examine the smallest few per bucket
         for v in lst[:cap]:
